@@ -2,7 +2,7 @@
 """Regression over the seeded changes: for every /verif/seeded/<id> apply its patch to a scratch
 worktree of /repo's HEAD and run the checks that meta.json records as catching it (quick tier).
 Prints one line per (seed, check): CAUGHT (exit 1 + VIOLATION line), MISSED (exit 0) or OTHER.
-usage: tools/reseed.py [seed-id ...]      (default: all)
+usage: tools/reseed.py [-jN] [seed-id ...]      (default: all, one at a time; -j4 runs four seeded changes at a time)
 The scratch worktrees live under /tmp/reseed and are removed after use."""
 import json, os, subprocess, sys, glob, shutil
 
@@ -12,43 +12,57 @@ ENV = dict(os.environ, GOFLAGS="-mod=mod", GOPROXY="off", GOSUMDB="off", GOTOOLC
 def sh(cmd, cwd=None, env=None):
     return subprocess.run(cmd, shell=True, cwd=cwd, env=env or ENV, capture_output=True, text=True, errors="replace")
 
+def one(sid):
+    """returns (lines, problems) for one seeded change"""
+    lines, bad = [], 0
+    d = os.path.join(ROOT, "seeded", sid)
+    meta = json.load(open(os.path.join(d, "meta.json")))
+    checks = [c for c, v in meta["results"].items() if "caught" in v.lower() and not v.lower().startswith("not caught")]
+    wt = "/tmp/reseed/" + sid
+    sh("git -C /repo worktree remove --force %s" % wt)
+    r = sh("git -C /repo worktree add -q --detach %s HEAD" % wt)
+    if r.returncode != 0:
+        return ["%s: cannot create worktree: %s" % (sid, r.stderr.strip())], 1
+    patch = os.path.join(d, "patch.adapted.diff")
+    if not os.path.exists(patch):
+        patch = os.path.join(d, "patch.diff")
+    r = sh("git apply %s" % patch, cwd=wt)
+    if r.returncode != 0:
+        r = sh("git apply -3 %s && git reset -q" % patch, cwd=wt)
+    if r.returncode != 0:
+        lines.append("%s: PATCH DOES NOT APPLY on the current HEAD (%s)" % (sid, r.stderr.strip().splitlines()[-1] if r.stderr.strip() else ""))
+        bad += 1
+    else:
+        for c in checks:
+            env = dict(ENV, VERIF_REPO=wt, VERIF_OUT="/tmp/reseed/out-" + sid)
+            r = sh("bin/check %s quick" % c, cwd=ROOT, env=env)
+            viol = [l for l in r.stdout.splitlines() if l.startswith("VIOLATION")]
+            sigs = sorted(set(l.strip()[len("signature: "):] for l in r.stdout.splitlines() if l.strip().startswith("signature:")))
+            if r.returncode == 1 and viol:
+                verdict = "CAUGHT"
+            elif r.returncode == 0:
+                verdict = "MISSED"; bad += 1
+            else:
+                verdict = "OTHER(exit %d)" % r.returncode; bad += 1
+            lines.append("%s %s %s %s" % (sid, c, verdict, ";".join(sigs[:3])))
+        shutil.rmtree("/tmp/reseed/out-" + sid, ignore_errors=True)
+    sh("git -C /repo worktree remove --force %s" % wt)
+    return lines, bad
+
 def main():
-    ids = sys.argv[1:] or sorted(os.path.basename(d) for d in glob.glob(ROOT + "/seeded/*") if os.path.isdir(d))
+    args = sys.argv[1:]
+    jobs = 1
+    if args and args[0].startswith("-j"):
+        jobs = int(args[0][2:] or 4); args = args[1:]
+    ids = args or sorted(os.path.basename(d) for d in glob.glob(ROOT + "/seeded/*") if os.path.isdir(d))
     os.makedirs("/tmp/reseed", exist_ok=True)
     bad = 0
-    for sid in ids:
-        d = os.path.join(ROOT, "seeded", sid)
-        meta = json.load(open(os.path.join(d, "meta.json")))
-        checks = [c for c, v in meta["results"].items() if "caught" in v.lower() and not v.lower().startswith("not caught")]
-        wt = "/tmp/reseed/" + sid
-        sh("git -C /repo worktree remove --force %s" % wt)
-        r = sh("git -C /repo worktree add -q --detach %s HEAD" % wt)
-        if r.returncode != 0:
-            print("%s: cannot create worktree: %s" % (sid, r.stderr.strip())); bad += 1; continue
-        patch = os.path.join(d, "patch.adapted.diff")
-        if not os.path.exists(patch):
-            patch = os.path.join(d, "patch.diff")
-        r = sh("git apply %s" % patch, cwd=wt)
-        if r.returncode != 0:
-            r = sh("git apply -3 %s" % patch, cwd=wt)
-        if r.returncode != 0:
-            print("%s: PATCH DOES NOT APPLY on the current HEAD (%s)" % (sid, r.stderr.strip().splitlines()[-1] if r.stderr.strip() else ""))
-            bad += 1
-        else:
-            for c in checks:
-                env = dict(ENV, VERIF_REPO=wt, VERIF_OUT="/tmp/reseed/out-" + sid)
-                r = sh("bin/check %s quick" % c, cwd=ROOT, env=env)
-                viol = [l for l in r.stdout.splitlines() if l.startswith("VIOLATION")]
-                sigs = sorted(set(l.strip()[len("signature: "):] for l in r.stdout.splitlines() if l.strip().startswith("signature:")))
-                if r.returncode == 1 and viol:
-                    verdict = "CAUGHT"
-                elif r.returncode == 0:
-                    verdict = "MISSED"; bad += 1
-                else:
-                    verdict = "OTHER(exit %d)" % r.returncode; bad += 1
-                print("%s %s %s %s" % (sid, c, verdict, ";".join(sigs[:3])), flush=True)
-            shutil.rmtree("/tmp/reseed/out-" + sid, ignore_errors=True)
-        sh("git -C /repo worktree remove --force %s" % wt)
+    from concurrent.futures import ThreadPoolExecutor
+    with ThreadPoolExecutor(max_workers=jobs) as ex:
+        for lines, b in ex.map(one, ids):
+            bad += b
+            for l in lines:
+                print(l, flush=True)
     sh("git -C /repo worktree prune")
     print("reseed: %d problems" % bad)
     sys.exit(1 if bad else 0)
